@@ -173,6 +173,9 @@ Pass(src, mode, env) == Eval(Init0(mode), src, 1, env)
 Build(src, env) ==
   LET p1 == Pass(src, "first", env) IN
   IF p1.err = "" /\ p1.mode = "collect"
-    THEN LET p2 == Pass(src, "exec", env) IN [p2 EXCEPT !.runs = p1.runs \o @, !.deps = p1.deps]
+    THEN \* the temp files written by the first pass are on disk when the final pass runs
+         LET env2 == [env EXCEPT !.files = Overlay(env.files, p1.temps)]
+             p2 == Pass(src, "exec", env2) IN
+         [p2 EXCEPT !.runs = p1.runs \o @, !.deps = p1.deps, !.temps = p1.temps \o @]
     ELSE p1
 =============================================================================
